@@ -203,6 +203,8 @@ def decode_cases(rng):
     for t, v in imms[:5]:
         a = rng.choice(regs)
         cases.append((f"lui {a}, {t}", "IArith", "Lui", dict(rd=rn(a), rs1=0, imm=s32(v << 12))))
+        # auipc rd, imm20 (U-type, like lui; the value is pc-relative and never a known constant)
+        cases.append((f"auipc {a}, {t}", "IArith", "Auipc", dict(rd=rn(a), rs1=0, imm=s32(v << 12))))
     a, b = rng.choice(regs), rng.choice(regs)
     cases.append((f"jal {a}, lbl", "JumpLink", "Jal", dict(rd=rn(a), name="lbl")))
     cases.append(("jal lbl", "JumpLink", "Jal", dict(rd=1, name="lbl")))
@@ -305,6 +307,52 @@ def run(res, tier, seed):
         if got != want and extra_first is None:
             extra_first = {"statement": src, "what": f"{m_} {x},{y} folded to {got}, RV32IM gives {want}",
                            "replay_cmd": f"echo 'pipe facts 1 {hx('m.s')} {hx(src)}' | {RVH_DEBUG}"}
+    # --- the target label of every instruction form that names one: in the graph built from a
+    # two-label program the instruction has an edge to the node that carries the label (and, for
+    # forms that do not transfer control - la - has none); calls are recognised as calls
+    tforms = [("j {L}", "jump"), ("b {L}", "jump"), ("jal {L}", "call"), ("jal ra, {L}", "call"), ("jal x1, {L}", "call"),
+              ("call {L}", "call"), ("jal x0, {L}", "jump"), ("jal zero, {L}", "jump"), ("jal t0, {L}", "jump"),
+              ("jal s1, {L}", "jump"), ("jal a0, {L}", "jump"), ("jal x5, {L}", "jump"), ("jal t6, {L}", "jump"),
+              ("beq a0, a1, {L}", "jump"), ("bne a0, zero, {L}", "jump"), ("blt a0, a1, {L}", "jump"),
+              ("bge a0, a1, {L}", "jump"), ("bltu a0, a1, {L}", "jump"), ("bgeu a0, a1, {L}", "jump"),
+              ("beqz a0, {L}", "jump"), ("bnez a0, {L}", "jump"), ("bgtz a0, {L}", "jump"), ("blez a0, {L}", "jump"),
+              ("bltz a0, {L}", "jump"), ("bgez a0, {L}", "jump"), ("bgt a0, a1, {L}", "jump"),
+              ("ble a0, a1, {L}", "jump"), ("bgtu a0, a1, {L}", "jump"), ("bleu a0, a1, {L}", "jump"),
+              ("la t0, {L}", "none")]
+    treqs, tmeta = [], []
+    for form, kind in tforms:
+        for lab in ("tgt", "other"):
+            src = ("main:\n    li a0, 1\n    li a1, 2\n    " + form.replace("{L}", lab) +
+                   "\n    addi a0, a0, 1\n    li a7, 10\n    ecall\nother:\n    addi a0, a0, 2\n    ret\ntgt:\n"
+                   "    addi a0, a0, 3\n    ret\n")
+            treqs.append(f"pipe cfg 1 {hx('m.s')} {hx(src)}")
+            tmeta.append((form, kind, lab, src))
+    timpl = run_lines_isolated(RVH_DEBUG, treqs, chunk=100)
+    tmod = run_lines(DRIVER, treqs)
+    for (form, kind, lab, src), blk, mb in zip(tmeta, timpl, tmod):
+        cfg = [l for l in blk if l.startswith("CFG ") and l.split()[1].isdigit()]
+        what = None
+        lab_node = next((int(l.split()[1]) for l in cfg if f"labels=[{hx(lab)}]" in l or (hx(lab) in (re.search(r"labels=\[([^\]]*)\]", l).group(1).split(",")))), None)
+        inst = next((l for l in cfg if " it=3:" in l), None)
+        if lab_node is None or inst is None:
+            what = what or "label or instruction node missing in the graph"
+        else:
+            nexts = [int(x) for x in re.search(r"nexts=\[([^\]]*)\]", inst).group(1).split(",") if x]
+            # a call returns: in the finished graph its successor is the next instruction; the callee
+            # is recorded as a function whose entry carries the label
+            if kind == "jump" and lab_node not in nexts:
+                what = what or f"no edge to the node carrying the label ({lab_node}); successors {nexts}"
+            if kind == "none" and lab_node in nexts and lab_node != int(inst.split()[1]) + 1:
+                what = what or "la has an edge to the label"
+            if kind == "call" and not any(l.startswith("CFG.FUNC ") and f"labels=[{hx(lab)}]" in l for l in blk):
+                what = what or "the called label is not a function"
+        if what is None and [l for l in blk if l.startswith("CFG")] != [l for l in mb if l.startswith("CFG")]:
+            what = "graph differs from the model's"
+        if what and (extra_first is None or (extra_first.get("no_input") and not what.startswith("graph differs"))):
+            extra_first = {"statement": src, "what": f"target label of `{form.replace('{L}', lab)}`: {what}", "impl": blk[:14],
+                           "no_input": what.startswith("graph differs"),
+                           "replay_cmd": f"echo 'pipe cfg 1 {hx('m.s')} {hx(src)}' | {RVH_DEBUG}"}
+    res.notes["target_label_programs"] = len(tmeta)
     res.notes["decode_cases"] = len(dcases)
     res.notes["fold_programs"] = len(fcases)
 
